@@ -157,6 +157,9 @@ func (r *Run) callVF(caller *frame, pos token.Pos, fn *ssa.Function, args []Valu
 		return r.deepEqual(args[0], args[1], 0)
 	case "Observe":
 		return nil
+	case "AllSchedules":
+		r.allSchedules = args[0].(*Term).Bool()
+		return nil
 	case "AllMapOrders":
 		r.mapOrderAll = args[0].(*Term).Bool()
 		return nil
